@@ -229,6 +229,8 @@ type watchFacts struct {
 	deferClose           bool
 	explicitCloseReturns int // returns preceded in their block by close(ch)
 	perWatchStream       bool // Watch opens its own primitive event stream (no shared dispatcher)
+	cancelReturns        int  // returns taken in a `case <-ctx.Done():` branch of a select of the per-watch goroutine
+	cancelReturnsDrained int  // … of which start the endless drain of the internal channel first
 }
 
 // consumerChan is the name of the `chan<-` parameter.
@@ -479,6 +481,34 @@ func watchFactsOf(file *ast.File, fd *ast.FuncDecl) watchFacts {
 		})
 	}
 	for _, body := range bodies {
+		ast.Inspect(body, func(n ast.Node) bool {
+			if _, ok := n.(*ast.FuncLit); ok {
+				return false
+			}
+			sel, ok := n.(*ast.SelectStmt)
+			if !ok {
+				return true
+			}
+			for _, c := range sel.Body.List {
+				cc := c.(*ast.CommClause)
+				if cc.Comm == nil || !isCtxDoneRecv(cc.Comm) {
+					continue
+				}
+				drained := false
+				for _, st := range cc.Body {
+					if isDrainGo(st) {
+						drained = true
+					}
+					if _, ok := st.(*ast.ReturnStmt); ok {
+						wf.cancelReturns++
+						if drained {
+							wf.cancelReturnsDrained++
+						}
+					}
+				}
+			}
+			return true
+		})
 		for _, st := range body.List {
 			if ds, ok := st.(*ast.DeferStmt); ok && exprString(ds.Call.Fun) == "close" && len(ds.Call.Args) == 1 && exprString(ds.Call.Args[0]) == ch {
 				wf.deferClose = true
@@ -660,6 +690,37 @@ func init() {
 				fmt.Fprintf(&out, "/-- the applied map's name is the committed map's name followed by this suffix (empty when shared or not of that shape) -/\ndef %sAppliedSuffix : String := %s\n\n",
 					src.prefix, leanStr(suffixOf(fa, fc)))
 			}
+			if sd := methodDecl(f, "store"); sd != nil {
+				// the guard under which `store` rewrites a side-map entry that already exists (and is not pruned):
+				// the condition of the `if` whose body calls transaction.Update, as a Lean Bool term
+				var guard ast.Expr
+				var insertGuard ast.Expr
+				ast.Inspect(sd.Body, func(n ast.Node) bool {
+					is, ok := n.(*ast.IfStmt)
+					if !ok {
+						return true
+					}
+					for _, st := range is.Body.List {
+						if es, ok := st.(*ast.ExprStmt); ok {
+							if ce, ok := es.X.(*ast.CallExpr); ok {
+								switch exprString(ce.Fun) {
+								case "transaction.Update":
+									guard = is.Cond
+								}
+							}
+						}
+					}
+					return true
+				})
+				_ = insertGuard
+				if guard == nil {
+					fail("%s: store: no `if … { transaction.Update(…) }`", src.rel)
+				} else {
+					c := &skCtx{callOrd: map[token.Pos]int{}, tracked: map[string]bool{}}
+					c.prepass(sd)
+					fmt.Fprintf(&out, "/-- `store` in %s rewrites an existing, unpruned side-map entry under this condition (operands and uninterpreted conditions named by their Go text) -/\ndef %sStoreRewriteGuard (g : OnosVerif.Generated.V2G) : Bool :=\n  %s\n\n", src.rel, src.prefix, c.cond(guard))
+				}
+			}
 			wd := methodDecl(f, "Watch")
 			if wd == nil {
 				fail("%s: method Watch not found", src.rel)
@@ -673,6 +734,8 @@ func init() {
 			fmt.Fprintf(&out, "/-- … of which inside a `select` that also waits on `ctx.Done()` -/\ndef %sWatchGuardedSends : Nat := %d\n\n", src.prefix, wf.guardedSends)
 			fmt.Fprintf(&out, "/-- return statements of the per-watch goroutine of %s -/\ndef %sWatchReturns : Nat := %d\n\n", src.rel, src.prefix, wf.returns)
 			fmt.Fprintf(&out, "/-- … of which leave without starting `go func(){ for range eventCh {} }()` -/\ndef %sWatchUndrainedReturns : Nat := %d\n\n", src.prefix, wf.undrainedReturns)
+			fmt.Fprintf(&out, "/-- returns of the per-watch goroutine of %s taken in a `case <-ctx.Done():` branch of a select (the watcher leaves while the dispatcher may still hold it in a snapshot of the listeners) -/\ndef %sWatchCancelReturns : Nat := %d\n\n", src.rel, src.prefix, wf.cancelReturns)
+			fmt.Fprintf(&out, "/-- … of which first start `go func(){ for range eventCh {} }()`, the drain that never ends -/\ndef %sWatchCancelReturnsDrained : Nat := %d\n\n", src.prefix, wf.cancelReturnsDrained)
 			fmt.Fprintf(&out, "/-- the per-watch goroutine of %s has `defer close(ch)` -/\ndef %sWatchDeferClose : Bool := %s\n\n", src.rel, src.prefix, leanBool(wf.deferClose))
 			fmt.Fprintf(&out, "/-- returns of that goroutine preceded by an explicit `close(ch)` in their block -/\ndef %sWatchExplicitCloseReturns : Nat := %d\n\n", src.prefix, wf.explicitCloseReturns)
 		}
